@@ -79,3 +79,18 @@ theories/Layout/LayoutProofs.vos theories/Layout/LayoutProofs.vok theories/Layou
 theories/Properties_C20.vo theories/Properties_C20.glob theories/Properties_C20.v.beautified theories/Properties_C20.required_vo: theories/Properties_C20.v theories/Layout/Layout.vo theories/Layout/LayoutProofs.vo
 theories/Properties_C20.vio: theories/Properties_C20.v theories/Layout/Layout.vio theories/Layout/LayoutProofs.vio
 theories/Properties_C20.vos theories/Properties_C20.vok theories/Properties_C20.required_vos: theories/Properties_C20.v theories/Layout/Layout.vos theories/Layout/LayoutProofs.vos
+theories/Gen/ProblemTable.vo theories/Gen/ProblemTable.glob theories/Gen/ProblemTable.v.beautified theories/Gen/ProblemTable.required_vo: theories/Gen/ProblemTable.v 
+theories/Gen/ProblemTable.vio: theories/Gen/ProblemTable.v 
+theories/Gen/ProblemTable.vos theories/Gen/ProblemTable.vok theories/Gen/ProblemTable.required_vos: theories/Gen/ProblemTable.v 
+theories/Frozen/NoOkFrozen.vo theories/Frozen/NoOkFrozen.glob theories/Frozen/NoOkFrozen.v.beautified theories/Frozen/NoOkFrozen.required_vo: theories/Frozen/NoOkFrozen.v 
+theories/Frozen/NoOkFrozen.vio: theories/Frozen/NoOkFrozen.v 
+theories/Frozen/NoOkFrozen.vos theories/Frozen/NoOkFrozen.vok theories/Frozen/NoOkFrozen.required_vos: theories/Frozen/NoOkFrozen.v 
+theories/Verdict/Verdict.vo theories/Verdict/Verdict.glob theories/Verdict/Verdict.v.beautified theories/Verdict/Verdict.required_vo: theories/Verdict/Verdict.v theories/Gen/ProblemTable.vo theories/Frozen/NoOkFrozen.vo
+theories/Verdict/Verdict.vio: theories/Verdict/Verdict.v theories/Gen/ProblemTable.vio theories/Frozen/NoOkFrozen.vio
+theories/Verdict/Verdict.vos theories/Verdict/Verdict.vok theories/Verdict/Verdict.required_vos: theories/Verdict/Verdict.v theories/Gen/ProblemTable.vos theories/Frozen/NoOkFrozen.vos
+theories/Verdict/VerdictProofs.vo theories/Verdict/VerdictProofs.glob theories/Verdict/VerdictProofs.v.beautified theories/Verdict/VerdictProofs.required_vo: theories/Verdict/VerdictProofs.v theories/Verdict/Verdict.vo
+theories/Verdict/VerdictProofs.vio: theories/Verdict/VerdictProofs.v theories/Verdict/Verdict.vio
+theories/Verdict/VerdictProofs.vos theories/Verdict/VerdictProofs.vok theories/Verdict/VerdictProofs.required_vos: theories/Verdict/VerdictProofs.v theories/Verdict/Verdict.vos
+theories/Properties_C02.vo theories/Properties_C02.glob theories/Properties_C02.v.beautified theories/Properties_C02.required_vo: theories/Properties_C02.v theories/Verdict/Verdict.vo theories/Verdict/VerdictProofs.vo
+theories/Properties_C02.vio: theories/Properties_C02.v theories/Verdict/Verdict.vio theories/Verdict/VerdictProofs.vio
+theories/Properties_C02.vos theories/Properties_C02.vok theories/Properties_C02.required_vos: theories/Properties_C02.v theories/Verdict/Verdict.vos theories/Verdict/VerdictProofs.vos
